@@ -578,6 +578,11 @@ def run(ctx):
     ctx.trusted += [
         "translator translate/gen_tables.py (ast -> registered classes with effective _field_func_kwargs_ndim, base "
         "table and default rank of getBH_dict_level2); cross-checked on every run against the interpreter's tables",
+        "translator translate/gen_dictarith.py (every statement of getBH_dict_level2 into the deep embedding pyexp of "
+        "Model/L2Arith.v, reusing the expression translator of translate/gen_l2arith.py) and the evaluators of "
+        "Model/DictArith.v that give the translated conditions / tiling factors a meaning",
+        "Model/Level2Model.v (builder l2a's model of _getBH_level2, imported read-only) in the partial theorems that "
+        "compare the rows of the functional interface with those of group_field",
         "translator translate/gen_ifaces.py (ast -> the 16 getB/H/J/M wrappers as call rows, _validate_getBH_inputs "
         "as an if-chain, the dataframe block of _getBH_level2; format_star_input compared literally)",
         "hand model coq/Model/DictIface.v of getBH_dict_level2 (shapes only), _validate_getBH_inputs and the dataframe "
@@ -587,7 +592,8 @@ def run(ctx):
         "np.squeeze / np.tile / np.array / itertools.product / reshape are modelled, not verified; equality of the "
         "field NUMBERS across interfaces is tested (search), not proved: the field cores are not modelled",
     ]
-    ok = ctx.regen(["GenTables", "GenIfaces"])
+    ok = ctx.regen(["GenTables", "GenIfaces", "GenDictArith"])
+    ctx.partial += ["C07_functional_rows_partial", "C07_functional_field_partial"]
     built = ctx.build_props() and ok
     if built:
         # the reflexive table obligations of this run: one per registered class row of the regenerated GenTables
